@@ -205,6 +205,12 @@ static void build_alphabet(void)
             add(K_TOUCH, i, o, 0);
     for (int i = 0; i < NB; i++)
         add(K_TRUNC, i, 0, 0);
+    /* windows that span two segments and end strictly inside the later one */
+    for (int i = 0; i < NB; i++)
+        for (int o = 0; o <= 2; o++) {
+            add(K_SPLICE, i, o, 2);
+            add(K_SPLICE, i, o, 3);
+        }
 }
 
 static void c02_opstr(int opi, char *b, size_t n)
